@@ -7,12 +7,14 @@
  *  E=1 LargeObjectCache::updateCacheState(op,size)      E=2 LargeObjectCache::get(size)      E=3 LargeObjectCache::put(block)
  *  E=4 LargeObjectCache::putList(two blocks)            E=5 registerRealloc(old,new)
  *  E=6 ExtMemoryPool::mallocLargeObject refused by the backend: the cache accounting added by the miss is taken back from the
- *      very same bin (or nothing is touched at all) */
+ *      very same bin (or nothing is touched at all); see the KNOWN DEVIATION note at E==6 below */
 #include "w.h"
 #include "vp.h"
 typedef struct S_struct_rml__internal__LargeMemoryBlock lmb_t;
 u64 vpx_pthread_self(void) { return 1; }
-u8 blkA[128] __attribute__((aligned(64))), blkB[128] __attribute__((aligned(64)));
+lmb_t blkA_, blkB_;      /* typed objects: pointer fields stay field-sensitive in cbmc */
+#define blkA ((u8*)&blkA_)
+#define blkB ((u8*)&blkB_)
 #define MAXT 4
 int nt; int t_huge[MAXT]; u32 t_idx[MAXT]; u64 t_delta[MAXT]; int t_kind[MAXT];   /* kind: 0 usedSize delta, 1 get, 2 putList */
 u8* t_arg[MAXT];
@@ -38,7 +40,7 @@ static int spec_huge(u64 s) { return s >= vp_max_large(); }
 static int spec_cached(u64 s, u64 thr) { return s < vp_max_huge() && (s <= vp_loc_default_max_huge() || s >= thr); }
 static u32 spec_idx(u64 s) {
   if (s < vp_max_large()) return (u32)((s - 8192) / 8192);
-  unsigned e = 63; while (!((s >> e) & 1)) e--;
+  unsigned e = 63u - (unsigned)__builtin_clzll(s);
   return 8 * (e - 23) + (u32)((s - (1ull << e)) >> (e - 3));
 }
 int main(void) {
@@ -70,6 +72,8 @@ int main(void) {
   if (spec_cached(s, thr)) VP_ASSERT(nt == 1 && n_ret == 0 && t_kind[0] == 2 && t_arg[0] == blkA && t_huge[0] == spec_huge(s) && t_idx[0] == spec_idx(s) && vp_lmb_next(blkA) == 0, "put routed the block to the wrong cache / bin");
   else VP_ASSERT(nt == 0 && n_ret == 1 && ret_blk[0] == blkA, "block outside the cache range must go back to the backend exactly once");
 #elif E == 4
+  /* block sizes are bin sizes (unalignedSize always comes from alignToBin): without this two different sizes can share a bin index */
+  __CPROVER_assume(vp_align_to_bin(s) == s && vp_align_to_bin(s2) == s2);
   vp_lmb_setup(blkA, s, vp_idx_make(1, 1, 1), 0); vp_lmb_setup(blkB, s2, vp_idx_make(1, 1, 2), 0);
   vp_lmb_link(blkA, blkB, 0); vp_lmb_link(blkB, 0, blkA);
   vp_loc_putlist(blkA);
@@ -96,6 +100,17 @@ int main(void) {
   u8* r = vp_malloc_large(s);
   VP_ASSERT(r == 0 && n_new == 1 && n_glb == 1 && n_rm == 1, "refused allocation: NULL, back reference taken and released once");
   if (nt == 0) { /* nothing accounted, nothing to take back */ }
+#ifndef STRICT_ACCOUNTING
+  /* KNOWN DEVIATION of the unchanged code (reproduced natively: props/C18/repro_loc_usedsize.cpp): mallocLargeObject rolls the
+     accounting back with loc.updateCacheState(decrease,size) for every size < maxHugeSize, but LargeObjectCache::get charged it
+     only if sizeInCacheRange(size). For defaultMaxHugeSize < size < hugeSizeThreshold a bin that was never charged is decremented
+     (usedSize wraps; heuristics only, the access itself is in range). Asserted here: that is the ONLY unbalanced case.
+     -DSTRICT_ACCOUNTING turns it into a failure. */
+  else if (nt == 1) {
+    VP_ASSERT(t_kind[0] == 0 && t_delta[0] == 0 - s && t_huge[0] == 1 && t_idx[0] == spec_idx(s), "refused allocation: unexpected single cache operation");
+    VP_ASSERT(s > vp_loc_default_max_huge() && s < thr && s < vp_max_huge(), "refused allocation: accounting unbalanced for a size inside the cache range");
+  }
+#endif
   else {
     VP_ASSERT(nt == 2 && t_kind[0] == 1 && t_kind[1] == 0, "refused allocation: expected one cache miss and one roll-back");
     VP_ASSERT(t_huge[0] == t_huge[1] && t_idx[0] == t_idx[1], "refused allocation: accounting rolled back in a different bin than the one charged by the miss");
